@@ -96,8 +96,9 @@ def overlay_for(ctx, mapping):
     rep = {}
     for tgt, src in mapping.items():
         rep[os.path.join(REPO, tgt)] = os.path.join(VERIF, src)
-    p = os.path.join(ctx.work, "overlay.%d.json" % len(os.listdir(ctx.work)))
-    with open(p, "w") as f:
+    import tempfile
+    fd, p = tempfile.mkstemp(prefix="overlay.", suffix=".json", dir=ctx.work)
+    with os.fdopen(fd, "w") as f:
         json.dump({"Replace": rep}, f)
     return p
 
